@@ -1,14 +1,21 @@
 (* Case decoder / result encoder for property C07 (same language: harness/src/c07.rs,
    tools/props/c07.py).
      (7 op ty (n0 n1) rows cols (x ...) (pr pc))
-        op 1 = determinant, 2 = inverse ; ty 0 = Rat, 1 = Fp ; n0 n1 = dimension names of the
+        op 1 = determinant, 2 = inverse, 3 = determinant + inverse presence at element type f64 ;
+        ty 0 = Rat, 1 = Fp, 2 = Wrapping<i64> (a ring that is not a field: entries are integers),
+        3 = Trace<Rat> (dual numbers: entries are (number derivative), == compares numbers only) ;
+        op 3: ty = 0, entries are plain integers in -3..3, sizes <= 6 (every product and partial
+        sum of the Leibniz formula is then an exactly representable integer, so the f64 result
+        must be the exact integer determinant, in particular exactly 0.0 for a singular input) ;
+        n0 n1 = dimension names of the
         tensor forms ; rows, cols >= 1 ; x ... = rows*cols entries, row-major ; (pr pc) = where the
         harness inserts the hidden row / column of its masked view (ignored by the model).
    Result:  (matrix-route tensor-route)
         determinant:  (opt value) (opt value)
-        inverse:      (opt (rows cols (x ...)))  (opt (((n0 rows) (n1 cols)) (x ...))) *)
-From Coq Require Import List ZArith NArith Bool.
-From EasyML Require Import Base.Sx Model.Num Model.Perms Model.LinAlg.
+        inverse:      (opt (rows cols (x ...)))  (opt (((n0 rows) (n1 cols)) (x ...)))
+        op 3:         ((opt integer-determinant) inverse-present) *)
+From Coq Require Import List ZArith NArith QArith Bool.
+From EasyML Require Import Base.Sx Model.Num Model.Numeric Model.TraceNum Model.Perms Model.LinAlg.
 Import ListNotations.
 
 Fixpoint chunk {A} (rows cols : nat) (l : list A) : list (list A) :=
@@ -30,13 +37,36 @@ Definition c07_run {R} (ops : numops R) (op : Z) (names : nat * nat) (m : mat (R
   | _ => bad_case
   end.
 
+(* element-type tags of C07 *)
+Definition with_ty_c07 (ty : Z) (f : forall R, numops R -> sx) : sx :=
+  match ty with
+  | 0%Z => f Q Qops
+  | 1%Z => f Z Fpops
+  | 2%Z => f Z W64ops
+  | 3%Z => f (trace Q) (trace_numops Qops)
+  | _ => bad_case
+  end.
+
+(* op 3: the determinant over the integers (exact: small entries) and whether the inverse exists *)
+Definition c07_float (rows cols : nat) (d : list Z) : sx :=
+  if Nat.ltb 6 rows || Nat.ltb 6 cols || negb (forallb (fun z => (Z.abs z <=? 3)%Z) d) then bad_case
+  else
+    let det := det_tensor W64ops (chunk rows cols d) in
+    SL [sopt SZ det; sbool (match det with Some x => negb (x =? 0)%Z | None => false end)].
+
 Definition run_c07 (args : list sx) : sx :=
   match args with
   | [SZ op; SZ ty; names; rows; cols; data; pad] =>
       match dpair dnat dnat names, dnat rows, dnat cols, dpair dnat dnat pad with
       | Some names, Some rows, Some cols, Some _ =>
           if Nat.eqb rows 0 || Nat.eqb cols 0 || Nat.eqb (fst names) (snd names) then bad_case else
-          with_ty ty (fun R ops =>
+          if Z.eqb op 3 then
+            match ty, dlist dZ data with
+            | 0%Z, Some d => if Nat.eqb (length d) (rows * cols) then c07_float rows cols d else bad_case
+            | _, _ => bad_case
+            end
+          else
+          with_ty_c07 ty (fun R ops =>
             match dlist (ndec ops) data with
             | Some d => if Nat.eqb (length d) (rows * cols)
                         then c07_run ops op names (chunk rows cols d) else bad_case
